@@ -69,8 +69,15 @@ class Concatenator(Transformer):
             # Create dummy feature coordinates for DataArray
             new_coords = np.arange(idx_range[i], idx_range[i + 1])
 
-            # Replace original feature coordinates with dummy coordinates
-            data = data.drop_vars(self.feature_name)
+            # Replace original feature coordinates with dummy coordinates; auxiliary
+            # coordinates along the feature dimension are dropped as well since they
+            # are generally not shared by all elements and cannot be concatenated
+            aux_coords = [
+                c
+                for c in data.coords
+                if c != self.feature_name and self.feature_name in data[c].dims
+            ]
+            data = data.drop_vars([self.feature_name, *aux_coords])
             reindexed = data.assign_coords({self.feature_name: new_coords})
 
             reindexed_data_list.append(reindexed)
